@@ -106,6 +106,7 @@ const HOSTS = {
   Fragment:  { open: 'Fragment', kind: 'element', type: () => 'Fragment' },
   FragmentI: { open: 'Fragment', kind: 'element', type: () => 'Fragment', imports: "import { Fragment } from 'vue';" },
   FragmentAlias2: { open: 'Fq', kind: 'element', type: () => 'Fragment', imports: "import { Fragment as Fq } from 'vue';\nimport { ref as unusedRef } from 'vue';" },
+  FragmentStr: { open: 'Fs', kind: 'element', type: () => 'Fragment', imports: "import { \"Fragment\" as Fs } from 'vue';" },
   KeepAlive: { open: 'KeepAlive', kind: 'element', type: () => 'KeepAlive', imports: "import { KeepAlive } from 'vue';" },
   KeepAliveU:{ open: 'KeepAlive', kind: 'element', type: () => 'resolved:KeepAlive' },
 };
